@@ -10,7 +10,8 @@
       liquid2/context.py:458-468         increment / decrement
       liquid2/context.py:471-491         BuiltIn
     (line numbers of /repo at commit 919a310, i.e. after the fix 0967af6 that
-    made copy() chain the ROOT context's globals)
+    made copy() chain the ROOT context's globals; __init__ as of 95ad23b, which
+    keeps an empty global_data mapping instead of replacing it by a new dict)
       liquid2/template.py:50-66,78-89,104-136,172-178   Template.__init__, render, render_with_context, make_globals
       liquid2/environment.py:98,137-155,224-232         Environment.__init__ (globals), from_string, make_globals
       liquid2/loader.py:79-94            BaseLoader.load (matter -> overlay_data)
@@ -117,7 +118,8 @@ Fixpoint mget (s : store) (m : mref) (k : str) {struct m} : option value :=
          end) ms
   end.
 
-(** [len(mapping)]; chainmap.py:31-32 sums the lengths, BuiltIn.__len__ = 2. *)
+(** [len(mapping)]; chainmap.py:31-32 sums the lengths, BuiltIn.__len__ = 2.
+    (No longer used by [ctx_init] since 95ad23b; still tied to [len(chain)].) *)
 Fixpoint mlen (s : store) (m : mref) {struct m} : nat :=
   match m with
   | RDict a => length (read s a)
@@ -188,22 +190,21 @@ Definition with_scope (st : state) (c : chain) : state :=
   {| store_of := store_of st; scope := c; locals_a := locals_a st;
      counters_a := counters_a st; globals_r := globals_r st; root_r := root_r st |}.
 
-(** context.py:74-95
-      self.globals = global_data or {}          (a chain map of total length 0 is falsy)
+(** context.py:74-100 (after the fix 95ad23b)
+      self.globals = global_data if global_data is not None else {}
       self.root_globals = parent.root_globals if parent else self.globals
       self.locals = {} ; self.counters = {}
       self.scope = ReadOnlyChainMap(self.locals, self.globals, builtin, self.counters)
-    [parent_root] is [Some parent.root_globals] when there is a parent. *)
+    Every caller modelled here passes a mapping (Template.render passes
+    make_globals(...), copy() passes a chain map), never None, so the mapping
+    is kept as it is — also when it is empty, i.e. falsy.  [parent_root] is
+    [Some parent.root_globals] when there is a parent. *)
 Definition ctx_init (s : store) (g : mref) (parent_root : option mref) : state :=
-  let '(s0, g') :=
-    if Nat.eqb (mlen s g) 0
-    then (let '(s', a) := alloc s [] in (s', RDict a))
-    else (s, g) in
-  let '(s1, l) := alloc s0 [] in
+  let '(s1, l) := alloc s [] in
   let '(s2, c) := alloc s1 [] in
-  {| store_of := s2; scope := [RDict l; g'; RBuiltin; RDict c];
-     locals_a := l; counters_a := c; globals_r := g';
-     root_r := match parent_root with Some r => r | None => g' end |}.
+  {| store_of := s2; scope := [RDict l; g; RBuiltin; RDict c];
+     locals_a := l; counters_a := c; globals_r := g;
+     root_r := match parent_root with Some r => r | None => g end |}.
 
 (** context.py:186-193 resolve, and the root segment of get/get_async
     (:126-132): [self.scope[root]]; [None] = the Undefined result. *)
